@@ -5,7 +5,8 @@ From Coquelicot Require Import Coquelicot.
 From OV.base Require Import Num Piecewise.
 From OV.gen Require Import Gen_SmoothFunctions Gen_Friction Gen_MortarContact Gen_Surface Gen_EdgeCpp.
 From OV.model Require Import M_C18.
-From OV.proofs Require Import L_C18 L_C18b L_C18x.
+From OV.proofs Require Import L_C18 L_C18b L_C18x L_C18r L_C18f L_C18g.
+Notation float := Coq.Floats.PrimFloat.float.
 Local Open Scope R_scope.
 
 (* smoothed minimum: one-sided, tight, exact outside the band, symmetric *)
@@ -119,6 +120,69 @@ Proof. exact d_friction_ok_1. Qed.
 Theorem C18_dformula_smoothstep : forall x, @d_sstep R NumR x = dsstep x.
 Proof. exact d_sstep_ok. Qed.
 
+(* round-4 additions: BINARY64.  The subject is the PrimFloat instance of the generated kernels (the instance the harness executes
+   against the implementation); FR x is the real value of the float x (Flocq B2R), fin x says x is neither inf nor NaN,
+   u64 = 2^-53, tol64 = the binary64 value of safeTol, rnd64 = round-to-nearest-even onto binary64 (with subnormals).
+   "No overflow" is expressed as finiteness of the RESULT (shown to force finiteness of every intermediate); underflow is covered. *)
+Theorem C18_min_binary64_bounds : forall x y eps : float, fin x = true -> fin y = true -> fin eps = true ->
+  fin (@min_base float NumF x y eps) = true ->
+  Rmin (FR x) (FR y) - Rmax (FR eps) tol64 / 4 - 3 * u64 * (Rabs (FR x) + Rabs (FR y) + Rmax (FR eps) tol64)
+    <= FR (@min_base float NumF x y eps)
+    <= Rmin (FR x) (FR y) + 3 * u64 * (Rabs (FR x) + Rabs (FR y) + Rmax (FR eps) tol64).
+Proof. exact min_base_binary64_bounds. Qed.
+Theorem C18_min_binary64_inband_error : forall x y eps : float, fin x = true -> fin y = true -> fin eps = true ->
+  in_band64 x y eps = true -> fin (@min_base float NumF x y eps) = true ->
+  Rabs (FR (@min_base float NumF x y eps) - closed_form (FR x) (FR y) (Rmax (FR eps) tol64))
+    <= 3 * u64 * (Rabs (FR x) + Rabs (FR y) + Rmax (FR eps) tol64).
+Proof. exact min_base_binary64_inband_error. Qed.
+Theorem C18_min_binary64_exact_outside : forall x y eps : float, fin x = true -> fin y = true -> fin eps = true ->
+  FR eps <= Rabs (FR x - FR y) -> FR (@min_base float NumF x y eps) = Rmin (FR x) (FR y).
+Proof. exact min_base_binary64_exact_outside. Qed.
+Theorem C18_min_binary64_outside_bit_exact : forall x y eps : float, in_band64 x y eps = false ->
+  @min_base float NumF x y eps = plain_min64 x y.
+Proof. exact min_base_binary64_outside_exact. Qed.
+Theorem C18_max_binary64_bounds : forall x y eps : float, fin x = true -> fin y = true -> fin eps = true ->
+  fin (@s_max float NumF x y eps) = true ->
+  Rmax (FR x) (FR y) - 3 * u64 * (Rabs (FR x) + Rabs (FR y) + Rmax (FR eps) tol64)
+    <= FR (@s_max float NumF x y eps)
+    <= Rmax (FR x) (FR y) + Rmax (FR eps) tol64 / 4 + 3 * u64 * (Rabs (FR x) + Rabs (FR y) + Rmax (FR eps) tol64).
+Proof. exact s_max_binary64_bounds. Qed.
+Theorem C18_abs_binary64_bounds : forall x eps : float, fin x = true -> fin eps = true ->
+  fin (@s_abs float NumF x eps) = true ->
+  Rabs (FR x) - 3 * u64 * (2 * Rabs (FR x) + Rmax (FR eps) tol64)
+    <= FR (@s_abs float NumF x eps)
+    <= Rabs (FR x) + Rmax (FR eps) tol64 / 4 + 3 * u64 * (2 * Rabs (FR x) + Rmax (FR eps) tol64).
+Proof. exact s_abs_binary64_bounds. Qed.
+(* NaN arguments: the result is the second argument (NaN in y propagates, NaN in x is dropped by where(x < y, x, y)) *)
+Theorem C18_min_binary64_nan : forall x y eps : float, Coq.Floats.PrimFloat.is_nan x = true \/ Coq.Floats.PrimFloat.is_nan y = true ->
+  @min_base float NumF x y eps = y.
+Proof. exact min_base_binary64_nan. Qed.
+(* the same analysis for ANY rounding operator with relative error u <= 1/1000 and absolute (underflow) error eta, eta*1000 <= u tol^2 *)
+Theorem C18_min_rounded_abstract : forall (rnd : R -> R) (u eta : R), 0 <= u -> u <= 1 / 1000 -> 0 <= eta ->
+  (forall z, Rabs (rnd z - z) <= u * Rabs z + eta) ->
+  forall h q x y s tol, h = 1 / 2 -> q = 1 / 4 -> 0 < tol <= 1 -> tol <= s -> eta * 1000 <= u * (tol * tol) ->
+  Rabs (rnd (x - y)) < s ->
+  Rmin x y - s / 4 - 3 * u * (Rabs x + Rabs y + s) <= rounded_inband rnd h q x y s <= Rmin x y + 3 * u * (Rabs x + Rabs y + s).
+Proof. exact rounded_inband_bounds. Qed.
+(* the binary64 rounding operator satisfies that error model, and the numeric side conditions hold *)
+Theorem C18_rnd64_error_model : (forall z, Rabs (rnd64 z - z) <= u64 * Rabs z + eta64) /\ 0 <= u64 <= 1 / 1000 /\
+  0 < tol64 <= 1 /\ 0 <= eta64 /\ eta64 * 1000 <= u64 * (tol64 * tol64).
+Proof. exact (conj rnd64_err (conj u64_bounds (conj tol64_bounds eta64_bounds))). Qed.
+(* symmetry in binary64, at the level of values: for finite arguments the two results are finite together (this covers every
+   overflow case) and, when finite, have the same real value.  same64 a b := fin a = fin b /\ (fin a = true -> FR a = FR b). *)
+Theorem C18_min_binary64_sym : forall x y eps : float, fin x = true -> fin y = true -> fin eps = true ->
+  same64 (@min_base float NumF x y eps) (@min_base float NumF y x eps).
+Proof. exact min_base_binary64_sym. Qed.
+(* NOT PROVED (binary64): the same for the friction potential, zmax, smooth_linear, smoothstep (reals + correspondence only);
+   runs whose result is not finite ((x-y)^2 overflows inside the band for |x-y| > 1.3e154 -- the theorems assume a finite result);
+   BITWISE symmetry of min_base (false: min_base (+0) (-0) e = -0 vs +0 swapped, and C18_min_binary64_nan shows the NaN asymmetry);
+   the flush-to-zero instance of C18_min_rounded_abstract (eta = 2^-1022 satisfies its numeric hypothesis, the FTZ rounding
+   operator itself is not instantiated). *)
+Example C18_binary64_nonvacuous :
+  fin f64_one = true /\ fin f64_three_halves = true /\ in_band64 f64_one f64_three_halves f64_one = true /\
+  fin (@min_base float NumF f64_one f64_three_halves f64_one) = true.
+Proof. exact binary64_nonvacuous. Qed.
+
 (* non-vacuity: hypotheses are satisfiable at concrete arguments *)
 Example C18_nonvacuous : safeTol < 1 /\ 0 < 1 <= 1 / 2 + 1 / 2 /\ (1:R) <= Rabs (3 - 1).
 Proof. exact C18_nonvacuous_witness. Qed.
@@ -127,3 +191,4 @@ Print Assumptions C18_min_le.
 Print Assumptions C18_friction_convex.
 Print Assumptions C18_min_C1_x.
 Print Assumptions C18_friction_C1_partial.
+Print Assumptions C18_min_binary64_bounds.
